@@ -1,6 +1,6 @@
 (** C03 -- wire codec lossless, matches the SCION format, never truncates silently:
     property theorems only. *)
-From Sci Require Import Wire.Codec Wire.Spec_C03 Wire.Proofs_C03 Wire.BitFieldProofs Wire.ChecksumProofs Wire.RoundTripProofs Wire.ChecksumVerify Wire.LengthProofs Wire.SpecAgreeProofs Wire.EncodeLengthProofs Wire.AddrRoundTrip Wire.HeaderRoundTrip Wire.PacketRoundTrip Wire.StdPathRoundTrip Wire.PacketRoundTripStd Wire.ScmpRoundTrip Wire.PacketRoundTripAll Wire.SpecDecodeAgree Wire.EncodeOk Wire.CanonicalLayers.
+From Sci Require Import Wire.Codec Wire.Spec_C03 Wire.Proofs_C03 Wire.BitFieldProofs Wire.ChecksumProofs Wire.RoundTripProofs Wire.ChecksumVerify Wire.LengthProofs Wire.SpecAgreeProofs Wire.EncodeLengthProofs Wire.AddrRoundTrip Wire.HeaderRoundTrip Wire.PacketRoundTrip Wire.StdPathRoundTrip Wire.PacketRoundTripStd Wire.ScmpRoundTrip Wire.PacketRoundTripAll Wire.SpecDecodeAgree Wire.EncodeOk Wire.CanonicalLayers Wire.CanonicalPacket.
 Local Open Scope N_scope.
 
 (** A model that cannot be represented on the wire is rejected: whenever the encoder's gate
@@ -372,21 +372,9 @@ Print Assumptions decode_encode.
     the address header, the path and the payload of a model each re-encode (into any buffer of their
     size) to the corresponding slice of a byte string, the encoder's output for the whole packet IS
     that byte string (the layers write disjoint regions of the zeroed buffer in order).
-    PARTIAL with respect to [decode_packet k b = Ok (m, []) -> canonical b -> encode_packet m = b]
-    for whole packets.  The precondition that makes the whole statement true is: [b] is accepted by
-    the strict reader ([spec_decode k b = Some m]: consistent HdrLen / PayloadLen / UDP Length, no
-    trailing bytes, all reserved bits and the service-address padding zero, segment lengths a
-    non-zero prefix), its L4 checksum is the one the encoder computes, the path indices are in range
-    (outside the open class C03-decoder-accepts-unencodable-path-index: the encoder's gate refuses
-    such a model) and an SCMP error quote fits the 1232-byte budget; the class
-    C03-noncanonical-enum-tag does not arise in this direction (the decoder never produces a
-    catch-all variant for a known number).  Missing steps: deriving the
-    hypotheses of (5), (9), (11) and (12) from [decode_packet k b = Ok (m, [])] and [canonical b]
-    (inversion of the decoder: header layout, the segment split of a standard path), and the SCMP
-    message layer.  Canonical re-encoding of whole packets
-    is evaluated on the implementation by the decoder stream of the check (Cases_C03, CD cases:
-    every canonical byte string must re-encode to itself). *)
-Theorem encode_decode_canonical_partial :
+    These are the layers from which [encode_decode_canonical_partial] below is composed; the SCMP
+    message layer is not among them. *)
+Theorem encode_decode_canonical_layers :
   (forall (v : bytes) (i : info_f) (buf : bytes),
      bytes_ok v = true -> blen v = 8 -> be v 1 1 = 0 -> decode_info v = Ok i -> blen buf = 8 -> encode_info i buf = v)
   /\ (forall (v : bytes) (h : hop_f) (buf : bytes),
@@ -454,6 +442,33 @@ Proof.
         (conj encode_decode_common (conj encode_decode_udp (conj encode_decode_raw_payload (conj encode_decode_plain_paths
         (conj encode_decode_addr (conj host_bytes_of_decoded (conj encode_decode_stdpath compose_packet))))))))))).
 Qed.
+Print Assumptions encode_decode_canonical_layers.
+
+(** CANONICAL BYTES RE-ENCODE TO THEMSELVES, whole packets: for every byte string [b] of packet
+    kind 0 (raw) or 1 (UDP) -- every address kind, EVERY path kind (empty, one-hop, standard with
+    1..3 segments, unsupported) -- if the decoder accepts [b] as model [m] and [b] is canonical,
+    then the decoder left no rest and the encoder's output for [m] (into a zeroed buffer, i.e.
+    [encode_unchecked]) is exactly [b]; and whenever the encoder's gate accepts [m], [try_encode m]
+    returns [b].
+    [canonical_bytes k b] = the precondition that makes the statement true: [b] is accepted by the
+    strict reader [spec_decode k] (consistent HdrLen / PayloadLen / UDP Length, no trailing bytes,
+    version 0, all reserved bits and the service-address padding zero, segment lengths a non-zero
+    prefix), and for UDP the checksum field is the checksum the encoder computes over the datagram
+    with a zeroed field (a verifying checksum has two representations of zero).
+    The two open classes: (a) C03-decoder-accepts-unencodable-path-index -- the bytes still re-encode
+    to themselves through [encode_packet_al], but the gate [packet_wire_valid m] refuses such a model,
+    which is why the [try_encode] conclusion carries the gate as a hypothesis; (b)
+    C03-noncanonical-enum-tag does not arise in this direction (the decoder never produces a
+    catch-all variant for a known number).
+    PARTIAL: packet kind 2 (SCMP) is not covered -- the SCMP message layer (type-specific header,
+    reserved fields, quote budget) has no re-encoding lemma yet; SCMP packets are covered by the
+    decoder stream of the check (every canonical byte string must re-encode to itself). *)
+Theorem encode_decode_canonical_partial :
+  forall (kind : N) (b : bytes) (m : packet) (rest : bytes) (al_host al : bool),
+    bytes_ok b = true -> decode_packet kind b = Ok (m, rest) -> canonical_bytes kind b al_host al ->
+    rest = [] /\ encode_packet_al m al_host al = b
+    /\ (packet_wire_valid m = true -> al_host = true -> al = true -> try_encode m = Some b).
+Proof. exact decode_canonical_reencode. Qed.
 Print Assumptions encode_decode_canonical_partial.
 
 (** non-vacuity: a UDP packet over a two-segment standard path between an IPv4 and a service address *)
@@ -465,3 +480,18 @@ Example decode_encode_example :
   model_wf p = true /\ packet_wire_valid p = true /\ decode_packet 1 (encode_packet p) = Ok (p, [])
   /\ spec_decode 1 (encode_packet p) = Some p /\ spec_checksum_ok 1 (encode_packet p) = true.
 Proof. vm_compute. repeat split; reflexivity. Qed.
+
+(** non-vacuity of [encode_decode_canonical_partial]: the encoder's output for the packet above is
+    canonical (accepted by the strict reader, computed checksum), so the theorem applies to it *)
+Example encode_decode_canonical_example :
+  let hop := mkHF 1 63 2 5 [1; 2; 3; 4; 5; 6] in
+  let p := mkP (mkH 184 703710 17 281105609588992 844424930131969 (HA_V4 [10; 0; 0; 1]) (HA_Svc 2)
+                    (DP_Std 1 2 [mkSeg (mkIF 1 77 1700000000) [hop; hop]; mkSeg (mkIF 0 78 1700000001) [hop]]))
+               (PL_Udp 30041 53 [1; 2; 3; 4; 5]) in
+  let b := encode_packet p in
+  bytes_ok b = true /\ canonical_bytes 1 b true true /\ try_encode p = Some b.
+Proof.
+  cbv zeta. split; [vm_compute; reflexivity|]. split; [|vm_compute; reflexivity].
+  split; [eexists; vm_compute; reflexivity|]. right. split; [reflexivity|].
+  intros h hl pl Hh. vm_compute in Hh. inversion Hh; subst h hl pl. vm_compute. reflexivity.
+Qed.
